@@ -268,19 +268,49 @@ func (u *Unit) binop(st *State, fr *Frame, in *ssa.BinOp) Val {
 
 // seqEqTerm: l1 == l2 and contents agree on [0,l).
 func (u *Unit) seqEqTerm(a1 *Term, o1 *Term, l1 *Term, a2 *Term, o2 *Term, l2 *Term) *Term {
-	if l1.IsInt && l2.IsInt {
-		if l1.I.Cmp(l2.I) != 0 {
-			return TFalse
+	if l1.IsInt && l2.IsInt && l1.I.Cmp(l2.I) != 0 {
+		return TFalse
+	}
+	// one side has a small constant length: expand (no quantifier needed)
+	var cl *Term
+	if l1.IsInt && l1.I.Cmp(big.NewInt(16)) <= 0 {
+		cl = l1
+	} else if l2.IsInt && l2.I.Cmp(big.NewInt(16)) <= 0 {
+		cl = l2
+	}
+	if cl != nil && u.binder == 0 {
+		o1n, o2n := u.name(o1, "o"), u.name(o2, "o")
+		cs := []*Term{Eq(l1, l2)}
+		for i := int64(0); i < cl.I.Int64(); i++ {
+			cs = append(cs, Eq(Select(a1, Add(o1n, IntLit(i))), Select(a2, Add(o2n, IntLit(i)))))
 		}
-		if l1.I.Cmp(big.NewInt(16)) <= 0 {
-			var cs []*Term
-			for i := int64(0); i < l1.I.Int64(); i++ {
-				cs = append(cs, Eq(Select(a1, Add(o1, IntLit(i))), Select(a2, Add(o2, IntLit(i)))))
-			}
-			return And(cs...)
-		}
+		return And(cs...)
 	}
 	o1, o2, l1 = u.name(o1, "o"), u.name(o2, "o"), u.name(l1, "l")
+	if u.goalMode > 0 && u.binder == 0 {
+		// The term is (part of) a proof goal: "l1 == l2 and the contents agree"
+		// is established from a skolem index sk, a witness of disagreement if
+		// there is one.  Sound for positive occurrences in a goal; a negative
+		// occurrence merely cannot use the equality (sq is then unconstrained
+		// from above), so nothing unsound can be derived.
+		// a buffer assembled by appends is compared piece by piece
+		segs := a1.Segs
+		if len(segs) == 0 || !(o1.IsInt && o1.I.Sign() == 0) {
+			segs = nil
+		}
+		bounds := append([]*Term{IntLit(0)}, segs...)
+		bounds = append(bounds, l1)
+		var parts []*Term
+		for i := 0; i+1 < len(bounds); i++ {
+			lo, hi := bounds[i], bounds[i+1]
+			sq := u.newBool("sq")
+			sk := u.newInt("sk")
+			p := Implies(And(Le(lo, sk), Lt(sk, hi), Le(IntLit(0), sk), Lt(sk, l1)), Eq(Select(a1, Add(o1, sk)), Select(a2, Add(o2, sk))))
+			u.S.Assert(Implies(p, sq))
+			parts = append(parts, sq)
+		}
+		return And(append([]*Term{Eq(l1, l2)}, parts...)...)
+	}
 	d := u.name(Sub(o2, o1), "d")
 	mk := func(base, other *Term, lo *Term, toOther func(k *Term) *Term, baseFirst bool) *Term {
 		u.nq++
@@ -298,14 +328,14 @@ func (u *Unit) seqEqTerm(a1 *Term, o1 *Term, l1 *Term, a2 *Term, o2 *Term, l2 *T
 		if body.IsBool {
 			return body
 		}
-		if base.Fn == nil {
+		if base.Base != "" {
 			return &Term{S: fmt.Sprintf("(forall ((%s Int)) (! %s :pattern ((select %s %s))))", v, body.S, base.S, v), Sort: SBool}
 		}
 		return Forall(v, body)
 	}
 	f1 := mk(a1, a2, o1, func(k *Term) *Term { return Add(k, d) }, true)
-	if a2.Fn != nil || a1.Fn != nil {
-		if a1.Fn != nil && a2.Fn == nil {
+	if a2.Base == "" || a1.Base == "" {
+		if a1.Base == "" && a2.Base != "" {
 			f1 = mk(a2, a1, o2, func(k *Term) *Term { return Sub(k, d) }, false)
 		}
 		return And(Eq(l1, l2), f1)
